@@ -116,7 +116,7 @@ def rule(ctx, prog, chk, family, set_one, rule_name="EXP-SIB"):
 
 
 # ---------------------------------------------------------------------- SM-SIGN (scalar multiplications)
-def rule_sm_sign(ctx, prog, chk, family, famre, rule_name="SM-SIGN"):
+def rule_sm_sign(ctx, prog, chk, family, famre, rule_name="SM-SIGN", only_named=None):
     """every scalar-multiplication sibling honours the sign of each scalar parameter on every path that returns a point
     computed from it: the path consults the sign (bn_sign / ->sign, also of a copy), reduces the scalar modulo the order with
     bn_mod (which maps a negative scalar to its positive representative), or hands the scalar to a sibling; paths on which
@@ -126,6 +126,9 @@ def rule_sm_sign(ctx, prog, chk, family, famre, rule_name="SM-SIGN"):
     n = 0
     for fn in family:
         exps = exponent_params(fn)
+        if only_named is not None:
+            # families whose other integer parameters are bases / moduli: only the named ones are exponents
+            exps = [E for E in exps if fn.vars[E]["n"] in only_named]
         if not exps or not fn.params:
             continue
         r = fn.params[0]
@@ -173,6 +176,11 @@ def rule_sm_sign(ctx, prog, chk, family, famre, rule_name="SM-SIGN"):
                     for E in exps:
                         if is_scalar(key(fn, cl[2][1]), E):
                             out.append(("ev", "copyof", key(fn, cl[2][0]), E))
+                            # a copy into an element of a local array: remembered for the array as a whole (by name, so that
+                            # filling the next element does not forget it)
+                            kd = key(fn, cl[2][0])
+                            if isinstance(kd, tuple) and kd[0] == "x" and isinstance(kd[1], tuple) and kd[1][0] == "v":
+                                out.append(("ev", "copyarr", fn.vars[kd[1][1]]["n"], E))
                 elif re.match(r"^bn_mod(_basic|_barrt|_monty|_pmers)?$", cl[1]) and len(cl[2]) >= 3:
                     k = key(fn, cl[2][1])
                     for E in exps:
@@ -182,8 +190,13 @@ def rule_sm_sign(ctx, prog, chk, family, famre, rule_name="SM-SIGN"):
                     out.append(("ev", "infty"))
                 elif cl[1] in names or famre.match(cl[1]):
                     for a in cl[2]:
+                        ka = key(fn, a)
                         for E in exps:
-                            if is_scalar(key(fn, a), E):
+                            if is_scalar(ka, E):
+                                out.append(("ev", "sc", E))
+                            # a copy of the scalar (or the local array that holds such copies) handed to the sibling
+                            elif any(x[0] == "ev" and x[1] == "copyof" and x[3] == E and (x[2] == ka or (isinstance(x[2], tuple) and x[2][0] == "x" and x[2][1] == ka)) for x in pre) \
+                                    or (isinstance(ka, tuple) and ka[0] == "v" and ("ev", "copyarr", fn.vars[ka[1]]["n"], E) in pre):
                                 out.append(("ev", "sc", E))
             for sub in ir.walk(fn, node.el.e):
                 if sub[0] == "m" and sub[2] == "sign":
